@@ -36,29 +36,37 @@ func (g *graph) process(ctx context.Context, e *Event) (Status, error) {
 	var wg sync.WaitGroup
 	go func() {
 		g.roots.Range(func(_ PipelineID, pipeline *registeredPipeline) bool {
+			verifPoint("range.check", statusChan, pipeline.rootNode)
 			select {
 			// Don't continue to start root nodes if our context is already done.
 			// We would just process the node and then drop the status, and no
 			// other linked nodes would be processed.
 			case <-ctx.Done():
+				verifPoint("range.stop", statusChan)
 				return false
 			default:
 			}
 
 			wg.Add(1)
+			verifPoint("root.start", statusChan, pipeline.rootNode)
 			g.doProcess(ctx, pipeline.rootNode, e, statusChan, &wg)
 			return true
 		})
+		verifPoint("wg.wait", statusChan)
 		wg.Wait()
+		verifPoint("chan.close", statusChan)
 		close(statusChan)
 	}()
 	var status Status
 	var done bool
 	for !done {
+		verifPoint("collector.select", statusChan)
 		select {
 		case <-ctx.Done():
+			verifPoint("collector.ctxdone", statusChan)
 			done = true
 		case s, ok := <-statusChan:
+			verifPoint("collector.recv", statusChan, ok, s)
 			if ok {
 				status.Warnings = append(status.Warnings, s.Warnings...)
 				status.complete = append(status.complete, s.complete...)
@@ -83,13 +91,19 @@ func (g *graph) process(ctx context.Context, e *Event) (Status, error) {
 //     the sink node's ID
 func (g *graph) doProcess(ctx context.Context, node *linkedNode, e *Event, statusChan chan Status, wg *sync.WaitGroup) {
 	defer wg.Done()
+	defer verifPoint("task.exit", statusChan, node)
 
 	// Process the current Node
+	verifPoint("node.call", statusChan, node, e)
 	e, err := node.node.Process(ctx, e)
+	verifPoint("node.ret", statusChan, node, e, err)
 	if err != nil {
+		verifPoint("send.before", statusChan, node)
 		select {
 		case <-ctx.Done():
+			verifPoint("send.aborted", statusChan, node)
 		case statusChan <- Status{Warnings: []error{err}}:
+			verifPoint("send.delivered", statusChan, node)
 		}
 		return
 	}
@@ -101,9 +115,12 @@ func (g *graph) doProcess(ctx context.Context, node *linkedNode, e *Event, statu
 
 	// If the Event is nil, it has been filtered out and we are done.
 	if e == nil {
+		verifPoint("send.before", statusChan, node)
 		select {
 		case <-ctx.Done():
+			verifPoint("send.aborted", statusChan, node)
 		case statusChan <- completeStatus:
+			verifPoint("send.delivered", statusChan, node)
 		}
 		return
 	}
@@ -118,12 +135,16 @@ func (g *graph) doProcess(ctx context.Context, node *linkedNode, e *Event, statu
 
 		for _, child := range node.next {
 			wg.Add(1)
+			verifPoint("spawn", statusChan, node, child)
 			go g.doProcess(ctx, child, e, statusChan, wg)
 		}
 	} else {
+		verifPoint("send.before", statusChan, node)
 		select {
 		case <-ctx.Done():
+			verifPoint("send.aborted", statusChan, node)
 		case statusChan <- completeStatus:
+			verifPoint("send.delivered", statusChan, node)
 		}
 	}
 }
